@@ -447,3 +447,110 @@ def rule_parse_polls_deadline(ctx, rep, rid: str) -> None:
                     rep.bad(rid, k2, f"{f.qual} builds a Parser without the deadline callback: this parse runs outside the time limit", f"{f.module.rel}:{c.lineno}")
     if n < 1:
         raise AnalysisError(f"{rid}: no Parser construction found outside the front end")
+
+
+# ---- characters a delimited token must not contain are excluded on every path that produces the token --------
+def _forbidden_in_loop(f: Func) -> Dict[str, int]:
+    """Characters on which a character loop of f refuses the token: `if ch == "\\n": raise JSSyntaxError(..)`
+    (also `ch in "\\n\\r"`), where the loop walks the source one character at a time.  char -> line."""
+    out: Dict[str, int] = {}
+    for w in f.own_nodes():
+        if not isinstance(w, ast.While):
+            continue
+        for n in ast.walk(w):
+            if not (isinstance(n, ast.If) and n.body and any(isinstance(s, ast.Raise) for s in n.body)):
+                continue
+            t = n.test
+            if isinstance(t, ast.Compare) and len(t.ops) == 1 and isinstance(t.left, (ast.Name, ast.Call)) and isinstance(t.comparators[0], ast.Constant) and isinstance(t.comparators[0].value, str):
+                if isinstance(t.ops[0], ast.Eq) and len(t.comparators[0].value) == 1:
+                    out.setdefault(t.comparators[0].value, n.lineno)
+                elif isinstance(t.ops[0], ast.In):
+                    for ch in t.comparators[0].value:
+                        out.setdefault(ch, n.lineno)
+    return out
+
+
+def _excludes_char(cond: ast.AST, pol: bool, ch: str) -> bool:
+    """The condition, known to be `pol`, says that ch does not occur in the scanned text: X.find(ch, ..) == -1,
+    ch not in X, not (ch in X), X.count(ch) == 0."""
+    from ..util import atoms
+
+    for a, p in atoms(cond, pol):
+        if not isinstance(a, ast.Compare) or len(a.ops) != 1:
+            continue
+        l, r, op = a.left, a.comparators[0], a.ops[0]
+        if isinstance(l, ast.Constant) and l.value == ch and ((isinstance(op, ast.NotIn) and p) or (isinstance(op, ast.In) and not p)):
+            return True
+        if isinstance(l, ast.Call) and isinstance(l.func, ast.Attribute) and l.func.attr in ("find", "count", "rfind") and l.args and isinstance(l.args[0], ast.Constant) and l.args[0].value == ch:
+            rv = r.operand.value if isinstance(r, ast.UnaryOp) and isinstance(r.op, ast.USub) and isinstance(r.operand, ast.Constant) else (r.value if isinstance(r, ast.Constant) else None)
+            neg = isinstance(r, ast.UnaryOp)
+            want = 0 if l.func.attr == "count" else 1
+            if rv == want and (neg or l.func.attr == "count"):
+                if (isinstance(op, ast.Eq) and p) or (isinstance(op, ast.NotEq) and not p):
+                    return True
+            if l.func.attr != "count" and rv == 0 and not neg and ((isinstance(op, ast.Lt) and p) or (isinstance(op, ast.GtE) and not p)):
+                return True
+    return False
+
+
+def rule_bulk_paths_keep_token_grammar(ctx, rep, rid: str) -> None:
+    """The character loop of a literal reader states the token's grammar: where it refuses a character (a line break
+    inside a string literal), a second way of producing the token in the same function (a slice of the source found
+    with str.find) has to refuse it as well, or unterminated literals are accepted whenever the same quote occurs
+    later in the file."""
+    from ..util import known_conditions
+
+    rep.rule(rid, "in a lexer function whose character loop refuses a character inside the token (raise JSSyntaxError on a line break in a string literal), every other path that returns a slice of the source as the token holds a condition that excludes that character from the slice: the two ways of reading one token accept the same texts", floor=1)
+    # positive control
+    ctl = ast.parse("def r(self, q):\n    e = self.source.find(q, self.pos)\n    if e != -1 and self.source.find('\\\\', self.pos, e) == -1:\n        return self.source[self.pos:e]\n    while self.cur():\n        ch = self.adv()\n        if ch == '\\n':\n            raise JSSyntaxError('x')\n")
+    for n_ in ast.walk(ctl):
+        for c_ in ast.iter_child_nodes(n_):
+            c_._parent = n_
+
+    class _F:
+        node = ctl.body[0]
+
+        def own_nodes(self):
+            return list(ast.walk(ctl.body[0]))
+
+    if list(_forbidden_in_loop(_F())) != ["\n"]:
+        raise AnalysisError(f"{rid}: positive control failed")
+    lex = ctx.tree.mod("lexer")
+    n_fn = 0
+    for f in ctx.tree.funcs:
+        if f.module is not lex or isinstance(f.node, ast.Lambda):
+            continue
+        forb = _forbidden_in_loop(f)
+        if not forb:
+            continue
+        n_fn += 1
+        loops = [w for w in f.own_nodes() if isinstance(w, ast.While)]
+        sliced = {t.id for a in f.own_nodes() if isinstance(a, ast.Assign) and isinstance(a.value, ast.Subscript) and isinstance(a.value.slice, ast.Slice) and norm(a.value.value) == "self.source" for t in a.targets if isinstance(t, ast.Name)}
+        bulk = []
+        for r in f.own_nodes():
+            if not (isinstance(r, ast.Return) and r.value is not None):
+                continue
+            if any(any(x is r for x in ast.walk(w)) for w in loops):
+                continue
+            v = r.value
+            if any(isinstance(x, ast.Subscript) and isinstance(x.slice, ast.Slice) and norm(x.value) == "self.source" for x in ast.walk(v)) or any(isinstance(x, ast.Name) and x.id in sliced for x in ast.walk(v)):
+                # a slice taken after the loop has walked the text is the loop's own result
+                first_loop = min((w.lineno for w in loops), default=10**9)
+                if r.lineno < first_loop or not any(w.lineno < r.lineno for w in loops):
+                    bulk.append(r)
+                else:
+                    # after a loop: does the slice end where the loop stopped?  (self.pos) - the loop examined it
+                    continue
+        if not bulk:
+            rep.ok(rid, f"{f.qual}:single-path", {"refused_in_loop": sorted(repr(c) for c in forb)})
+            continue
+        for r in bulk:
+            conds = known_conditions(r, f.node)
+            for ch, ln in sorted(forb.items()):
+                key = f"{f.qual}:bulk-return@{short(r.value, 30)}:{ch!r}"
+                if any(_excludes_char(t, pol, ch) for t, pol in conds):
+                    rep.ok(rid, key)
+                else:
+                    rep.bad(rid, key, f"{f.qual} returns the source slice `{short(r.value, 40)}` as the token without excluding {ch!r} from it, while its character loop refuses that character (line {ln}): a literal that is not closed on its line is accepted whenever the same delimiter occurs later in the file (in a comment, in the next literal), and the text in between is run with another meaning", f"{f.module.rel}:{r.lineno}")
+    if n_fn == 0:
+        raise AnalysisError(f"{rid}: no lexer loop that refuses a character inside a token was found")
